@@ -52,17 +52,82 @@ CHECKS['C04'] = dict(
     require=['probes', 'probe_equal', 'probe_in_gap', 'probe_below_min', 'probe_above_max', 'probes_after_root_change', 'continuations_audited'],
     assumptions=TREE_ASSUME + ['CPU budget 2 s per call decides non-termination'])
 
+
+REFS_HASH = ('refs/ref_hash.c',)
+
+CHECKS['C05'] = dict(
+    title='hash table exact map for every history and range', level='exploration',
+    jobs=lambda tier, seed: [Job('h_hashtbl', 'plain', extra_srcs=REFS_HASH,
+                                 args=['--cases', '5000' if tier == 'thorough' else '480'])],
+    rule='evaluation = one API call (put/putstr/putstrf/putint/get/getstr/getint/remove/clear/size/getnext walk) compared with an association-array model; '
+         'after every operation of small configurations (every 16th otherwise) every universe key is re-read and the chain walker re-checks slot placement '
+         '(reference MurmurHash3), stored hashes, duplicates and the count. Ranges 1,2,3,7,64,default; removals chosen by chain position head/middle/tail/only. '
+         'distinct = distinct (universe, range, chain layout) states after a mutation.',
+    require=['content_compares', 'structure_checks', 'walks_audited', 'remove_chain_head', 'remove_chain_middle', 'remove_chain_tail',
+             'remove_only_node', 'remove_absent', 'put_replace', 'getint'],
+    assumptions=['association-array model and reference MurmurHash3 x86_32 (refs/ref_hash.c, validated against published vectors)',
+                 'x86-64 / glibc / gcc 12; zero-length values are not generated (malloc(0) is implementation-defined)'])
+
+
+HASHARR_ASSUME = ['bounded-map model with slots(v) = 1 if |v|<=32 else 1+ceil((|v|-32)/66), sizes taken from sizeof of the public slot struct',
+                  'reference MurmurHash3/MD5 (refs/ref_hash.c) identify which universe key a slot holds',
+                  'x86-64 / glibc / gcc 12']
+
+
+def hasharr_jobs(prop):
+    def jobs(tier, seed):
+        q = ['--maxcap', '4', '--cases', '280', '--statecap', '60000']
+        t = ['--maxcap', '5', '--cases', '3500', '--statecap', '1500000']
+        a = t if tier == 'thorough' else q
+        js = [Job('h_hasharr', 'plain', extra_srcs=REFS_HASH, args=a)]
+        if prop == 'C07':
+            qa = ['--maxcap', '3', '--cases', '140', '--statecap', '20000']
+            ta = ['--maxcap', '4', '--cases', '1500', '--statecap', '300000']
+            js.append(Job('h_hasharr', 'asan', extra_srcs=REFS_HASH, args=(ta if tier == 'thorough' else qa)))
+        return js
+    return jobs
+
+
+CHECKS['C06'] = dict(
+    title='static hash table exact bounded map, exact space accounting', level='exploration',
+    jobs=hasharr_jobs('C06'),
+    rule='evaluation = one operation (put/put_by_obj/putstr, remove, remove_by_idx, clear, walk) judged against the bounded-map model: result, errno, '
+         'the exact fit predicate (free>=1 and slots(new)<=free+slots(old)), (num,maxslots,usedslots), get of every universe key and an audited walk, after every operation. '
+         'Phase A: breadth-first over every image reachable for capacities 2..N with 5 colliding keys (two per home, long keys sharing 16 bytes) x 3 value lengths (1/2/3 slots), '
+         'ops put/remove/remove_by_idx(every index), images de-duplicated by a normalised copy; phase B random histories, capacities 2..257, keys up to 65535 bytes, fill/churn-at-full/drain phases. '
+         'distinct = distinct normalised images.',
+    require=['walks_audited', 'put_new_refused', 'put_replace_refused', 'put_replace_ok', 'branch_empty_home', 'branch_same_home_chain',
+             'branch_relocate_collision_block', 'branch_relocate_extension_block', 'remove_by_idx_promoting_collision_key', 'walks_with_removal',
+             'exhaustive_images'],
+    assumptions=HASHARR_ASSUME)
+
+CHECKS['C07'] = dict(
+    title='static hash table image self-contained, relocatable, well-formed', level='exploration',
+    jobs=hasharr_jobs('C07'),
+    rule='same executions as C06. After every operation the independent walker checks the slot graph (free/leading/collision/extension classes, collision counts, back-links, '
+         'acyclic terminated value chains, each extension reached once, sizes, header counters, home index by reference MurmurHash3); after every operation of phase A and every 8th of phase B '
+         'a second handle is attached to the same region and to a byte copy at a different 4-byte-aligned address and must observe identical size triple, values and walk; histories switch over to the copy. '
+         'The region lies between guard zones (pattern-verified in the plain build, ASan-poisoned 64 KiB in the asan build). distinct = distinct normalised images.',
+    require=['images_walked', 'attach_relocate_comparisons', 'switch_overs_to_relocated_copy', 'remove_by_idx_out_of_range', 'exhaustive_images'],
+    assumptions=HASHARR_ASSUME + ['relocation targets are 4-byte aligned (natural alignment of the image structs)'])
+
 # --------------------------------------------------------------------------- manifest texts
 NOT_APPLICABLE = {}
 DESIGN_REF = {}
 LEVEL_NOTE = {}
 TECHNIQUE = {
+    'C06': 'reference-model oracle (bounded map with slot accounting) on bounded-exhaustive images + random histories',
+    'C07': 'image-graph walker + attach/relocate equivalence + guard zones (ASan-poisoned) after every operation',
+    'C05': 'reference-model oracle (map) + chain-invariant walker after every operation; removals directed by chain position',
     'C01': 'reference-model oracle (sorted map) on bounded-exhaustive LLRB shapes + random histories',
     'C02': 'structural-invariant walker + comparator-call counter after every operation',
     'C03': 'reference-model sequence oracle on audited traversals incl. epoch sweep; CPU watchdog',
     'C04': 'reference-model floor oracle + continuation multiset audit; CPU watchdog',
 }
 LEVEL_TEXT = {
+    'C06': 'Every result, errno and counter of the real static hash table is compared with a bounded-map model including the exact fit rule, on every operation applied to every reachable image for small capacities and on random histories driven to and past full.',
+    'C07': 'An independent walker validates the slot graph after every operation; second handles on the same memory and on relocated byte copies must observe identical contents and can continue; poisoned guard zones catch any access outside the user region.',
+    'C05': 'Every result of the real hash table is compared with an association-array model over ranges 1,2,3,7,64 and default, with chains up to 40 long and removal forced at head/middle/tail; a walker recomputes every slot placement with an independent MurmurHash3.',
     'C01': 'Every API result of the real tree table is compared with an independent sorted-map model, on every put/remove applied to every reachable LLRB shape over a bounded key universe (5 orderings x 6 key classes) and on long seeded random histories; held on what was executed, not a proof.',
     'C02': 'An independent LLRB walker and qtreetbl_check() run after every single operation of the same workloads, and lookup cost is measured by a counting comparator against 2*log2(n+1).',
     'C03': 'Audited complete walks after arbitrary histories, with the 8-bit epoch driven through several wraps and walks started right after fresh inserts and root changes.',
